@@ -11,7 +11,7 @@ from ..tlc import run_tlc
 
 SH_INV = ["Orthonormal", "SpinZeroIsLegendre", "Ladder", "LadderTop", "Conjugation", "Emit"]
 PYTH = [(3, 4, 5), (5, 12, 13), (8, 15, 17), (7, 24, 25), (20, 21, 29), (12, 35, 37), (9, 40, 41), (28, 45, 53), (11, 60, 61),
-        (16, 63, 65), (33, 56, 65), (48, 55, 73)]
+        (16, 63, 65), (33, 56, 65), (48, 55, 73), (13, 84, 85), (36, 77, 85)]
 
 
 def harmonics_oracle(lmax, nprimes):
@@ -269,7 +269,7 @@ def check_extraction(run):
 
 def run(tier, seed):
     run = Run("C20", tier, seed)
-    lmax = 6 if tier == "quick" else 8
+    lmax = 10 if tier == "quick" else 12     # the library's factorials are floats: degrees beyond the default lmax = 8 are offered too
     table, res = harmonics_oracle(lmax, 6 if tier == "quick" else 10)
     for r in res:
         run.add_tlc(GE.FakeRes(r), f"SpinHarmonics modulo {r['p']}: |s| <= 2, l <= {lmax}; orthonormality, spin-0 Legendre form, ladder, conjugation checked on every (s, l, m)")
@@ -292,12 +292,12 @@ def run(tier, seed):
                 "TLC in exact arithmetic modulo primes for every |s| <= 2, l <= lmax, |m| <= l against facts it was not written from: exact "
                 "orthonormality over the sphere (Beta integrals), the Legendre form at spin 0 (Bonnet recurrence; documented phase: no "
                 "Condon-Shortley factor), the spin-raising ladder, complex conjugation; a sign slip is rejected (negative control). The real sYlm is "
-                "compared with the lifted polynomial at 24 inclinations with rational half-angle cosine and sine (more than the degree 2l + 1: "
+                "compared with the lifted polynomial at 28 inclinations with rational half-angle cosine and sine (more than the degree 2l + 1: "
                 "agreement there is identity of the polynomials) x 4 azimuths, and with scipy at spin 0. Interp.tla: multilinear interpolation in exact "
                 "rationals, TLC checks partition of unity, exactness on trilinear fields and at nodes; every state (nodes, quarter points, points "
                 "just outside, 4 fields) is run through numerical.interpolate; every scipy method at the nodes. Numerical clauses (harness level, not "
                 "TLC): decomposition + re-synthesis of band-limited fields and Psi4_lm of a pure harmonic converge with the resolution")
-    run.assumptions = ["spin weights -2 .. 2, degrees up to 6 (quick) / 8 (thorough, the default lmax of AurelCore)",
+    run.assumptions = ["spin weights -2 .. 2, degrees up to 10 (quick) / 12 (thorough); the default lmax of AurelCore is 8",
                        "orthogonality in m is the factor e^(i m phi) (not enumerated)",
                        "the two convergence clauses are floating-point experiments at three resolutions, not model-checked facts",
                        "extraction test uses modes that are smooth on the Cartesian grid ((2,0), (2,1), (3,-1)) and linear interpolation"]
